@@ -27,8 +27,8 @@ pub fn check(acc: &mut Acc, reg: &Registry, s: &dyn subjects::Subject, case: &Ca
 }
 
 pub fn run(ctx: &Ctx, reg: &Registry) -> i32 {
-    let n_cases: u64 = ctx.tier.pick(40, 1600);
-    let n_bits: u64 = ctx.tier.pick(6, 40);
+    let n_cases: u64 = ctx.tier.pick(400, 6000);
+    let n_bits: u64 = ctx.tier.pick(8, 40);
     let acc = ctx.par(|shard, n| {
         let mut acc = Acc::new();
         for (si, s) in reg.subjects.iter().enumerate() {
